@@ -37,7 +37,9 @@ func init() {
 	})
 }
 
-func findMethod(pkg *packages.Package, recv, name string) *ast.FuncDecl { return methodDecl(pkg, recv, name) }
+func findMethod(pkg *packages.Package, recv, name string) *ast.FuncDecl {
+	return methodDecl(pkg, recv, name)
+}
 
 func runC05(c *core.Ctx) error {
 	ex, err := c.Expand(fixtureNames(c))
